@@ -143,6 +143,7 @@ void COSyncProdActivate(CO_SYNC *sync)
     CO_ERR   err;
     CO_NODE *node;
     int16_t  tid;
+    uint32_t part;
 
     node = sync->Node;
 
@@ -165,15 +166,19 @@ void COSyncProdActivate(CO_SYNC *sync)
         return;
     }
 
-    time = COTmrGetMinTime(&node->Tmr, CO_TMR_UNIT_100US);
-    if ((time * 100) > sync->Cycle) {
-        /* 
-         * Provided timer driver has small resolution for configured 
-         * value, it is not possible to handle SYNCs on requested 
-         * communication cycle.
-         * 
-         * TODO: refactor SYNC producer to use highest possible 
-         * resolution of COTmr API (which is currently 100 us).
+    /* the time exceeds the 16bit range of the conversion function:
+     * convert seconds, the remaining multiple of 100us and the remaining
+     * microseconds; a result above 32bit is limited to the longest time
+     */
+    time   = (sync->Cycle / 100);
+    ticks  = COTmrGetTicks(&node->Tmr, (uint16_t)(time / 10000u), 1u);
+    part   = COTmrGetTicks(&node->Tmr, (uint16_t)(time % 10000u), CO_TMR_UNIT_100US);
+    ticks  = (ticks > (0xFFFFFFFFu - part)) ? 0xFFFFFFFFu : (ticks + part);
+    part   = COTmrGetTicks(&node->Tmr, (uint16_t)(sync->Cycle % 100u), 1000000u);
+    ticks  = (ticks > (0xFFFFFFFFu - part)) ? 0xFFFFFFFFu : (ticks + part);
+    if ((sync->Cycle > 0) && (ticks == 0)) {
+        /* the timer driver is not able to resolve the requested
+         * communication cycle
          */
         node->Error = CO_ERR_SYNC_RES;
         return;
@@ -186,13 +191,7 @@ void COSyncProdActivate(CO_SYNC *sync)
         }
     }
 
-    time = (sync->Cycle / 100);
-    if (time > 0) {
-        /* the time exceeds the 16bit range of the conversion function:
-         * convert seconds and the remaining multiple of 100us
-         */
-        ticks  = COTmrGetTicks(&node->Tmr, (uint16_t)(time / 10000u), 1u);
-        ticks += COTmrGetTicks(&node->Tmr, (uint16_t)(time % 10000u), CO_TMR_UNIT_100US);
+    if (ticks > 0) {
         sync->Tmr = COTmrCreate(&node->Tmr,
             ticks,
             ticks,
